@@ -248,7 +248,8 @@ def parseInt (s : String) (k : Int → Op) : Op :=
   match s.toInt? with | some i => k i | none => .bad
 
 /-- `o:<v>` Offer, `O:<v>` Put, `H:<v>` Push, `u:<v>` Unshift, `s` Shift, `P` Poll, `T` Take, `p` Pop,
-    `k` Peek, `c` Count, `x` Clear, `n:<k>` KeepNodePoolCount(k), `z` ClearNodePool, `N` VerifNodeCount -/
+    `k` Peek, `c` Count, `x` Clear, `n:<k>` KeepNodePoolCount(k), `z` ClearNodePool, `N` VerifNodeCount;
+    `*<count> <op>` repeats an op (see `expandTok`) -/
 def parseOp (tok : String) : Op :=
   match tok.splitOn ":" with
   | ["o", v] => parseInt v .offer
@@ -267,8 +268,25 @@ def parseOp (tok : String) : Op :=
   | ["N"] => .poolInfo
   | _ => .bad
 
+/-- `n` repetitions of one call; repeated insertions insert consecutive values `v, v+1, …` -/
+def repeatOp (n : Nat) : Op → List Op
+  | .offer v => (List.range n).map fun (i : Nat) => .offer (v + (i : Int))
+  | .unshift v => (List.range n).map fun (i : Nat) => .unshift (v + (i : Int))
+  | op => List.replicate n op
+
+/-- one token of a case line: a single call, or the repetition token `*<count> <op>` (a compact way to write
+    long histories; it is expanded here, so it is just a longer history for `run`) -/
+def expandTok (tok : String) : List Op :=
+  if tok.startsWith "*" then
+    match tok.splitOn " " with
+    | [c, t] => match (c.drop 1).toString.toNat? with
+      | some n => repeatOp n (parseOp t)
+      | none => [.bad]
+    | _ => [.bad]
+  else [parseOp tok]
+
 def parseLine (line : String) : List Op :=
-  (((line.splitOn ";").map (fun t => t.trimAscii.toString)).filter (· ≠ "")).map parseOp
+  (((line.splitOn ";").map (fun t => t.trimAscii.toString)).filter (· ≠ "")).flatMap expandTok
 
 def showObs : Obs → String
   | .nil => "nil"
